@@ -277,6 +277,7 @@ class Renderer(object):  # pylint: disable=too-many-instance-attributes
         self.excluded_known = 0     # ops not rendered because of an open known finding
         self.nreg = len(regions)
         self.stats = {}
+        self.visited = []           # the first destinations of the program (physical)
 
     # -- emit helpers
     def g(self, cmd, precheck=False):
@@ -290,6 +291,8 @@ class Renderer(object):  # pylint: disable=too-many-instance-attributes
                 return None
         self.prog.append(["g", cmd])
         step = self.pr.execute(cmd)
+        if step.is_move and len(self.visited) < 80 and self.pr.x is not None:
+            self.visited.append((self.pr.x, self.pr.y))
         if step.is_move and self.enabled:
             self.open = self._classify(step, self.pr) != geom.OUT
         return step
@@ -880,6 +883,14 @@ def cases(draw, p):
     if reps:
         for _ in range(draw(st.integers(1, 2))):
             rnd.raster(draw(st.sampled_from([150, 600, 1300, 1300])), draw(st.sampled_from(["out", "out", "in"])), draw(st.booleans()))
+            if p["reg_events"] and rnd.visited and draw(st.booleans()):
+                # the user draws a region over a place the tool has been to long ago - and will come back to
+                vx, vy = rnd.visited[draw(st.integers(0, len(rnd.visited) - 1))]
+                if abs(vx) > 6 or abs(vy) > 6:
+                    reg = {"type": "circ", "cx": vx + 0.1, "cy": vy - 0.15, "r": 1.3, "id": "r%d" % rnd.nreg}
+                    rnd.nreg += 1
+                    rnd.regions.append(reg)
+                    rnd.prog.append(["reg", reg])
             for o in abstract:
                 rnd.op(o)
     via = draw(st.sampled_from(["direct", "direct", "plugin"])) if p.get("via_plugin", True) else "direct"
